@@ -111,6 +111,8 @@ type Interp struct {
 
 	globals map[*ssa.Global]*Cell
 	inited  map[*ssa.Package]bool
+	gs       *gsched            // goroutines of this path (nil until the first go statement / channel operation)
+	onceDone map[*Cell]bool     // sync.Once values already used on this path
 	mapCOW  map[*MapVal]*MapVal // this path's private copies of frozen (package-init) maps it wrote to
 
 	prefix []Decision // decisions to follow
@@ -881,7 +883,8 @@ func (in *Interp) exec(fr *frame, ins ssa.Instruction) {
 		et := x.Type().Underlying().(*types.Slice).Elem()
 		in.set(fr, x, in.makeSlice(et, n, cp))
 	case *ssa.MakeChan:
-		in.set(fr, x, &Opaque{Kind: "chan"})
+		n := int(in.Concretize(in.get(fr, x.Size).(*sym.Term)))
+		in.set(fr, x, in.makeChan(x.Type().Underlying().(*types.Chan).Elem(), n))
 	case *ssa.MapUpdate:
 		m := in.get(fr, x.Map).(*MapVal)
 		in.mapUpdate(m, in.get(fr, x.Key), in.get(fr, x.Value))
@@ -911,9 +914,16 @@ func (in *Interp) exec(fr *frame, ins ssa.Instruction) {
 	case *ssa.Select:
 		in.fail("unsupported", "select in "+fr.fn.String())
 	case *ssa.Go:
-		in.fail("unsupported", "go statement in "+fr.fn.String())
+		if x.Call.IsInvoke() {
+			in.fail("unsupported", "go with an interface method call in "+fr.fn.String())
+		}
+		args := make([]Value, len(x.Call.Args))
+		for i, a := range x.Call.Args {
+			args[i] = copyValue(in.get(fr, a))
+		}
+		in.goStart(in.get(fr, x.Call.Value), args)
 	case *ssa.Send:
-		in.fail("unsupported", "channel send in "+fr.fn.String())
+		in.chanSend(in.get(fr, x.Chan), in.get(fr, x.X))
 	default:
 		in.fail("unsupported", fmt.Sprintf("instruction %T in %s", ins, fr.fn))
 	}
